@@ -215,7 +215,13 @@ class Ref:
                 for i in range(n):
                     ai = [_slice_arg(x, ax, i) for x, ax in zip(a, axes)]
                     si = _index(sub, i) if sub is not None else None
-                    if "dist" in cal:
+                    if "dist" in cal and st.get("inner"):
+                        vs = [self.site(p, idx + (("v", i), ("r", j)), cal["tag"], cal["dist"], ai, _index(si, j) if si is not None else None)
+                              for j in range(st["inner"])]
+                        v = _stack(vs)
+                        rs.append(v)
+                        chs.append(v)
+                    elif "dist" in cal:
                         v = self.site(p, idx + (("v", i),), cal["tag"], cal["dist"], ai, si)
                         rs.append(v)
                         chs.append(v)
